@@ -7,6 +7,18 @@ NOTES = ("All checks: ./check <ID> [--tier quick|thorough]; seed from VERIF_SEED
 NOT_APPLICABLE = {}
 
 CHECKS = {
+ "C21": {
+  "level": "exploration",
+  "technique": "property-based testing: generated decision-theoretic programs vs brute-force expected utility of every strategy (reference semantics); MAP vs brute force of its documented objective",
+  "text": "Exhaustive search must return a strategy of maximal expected utility with the reported score equal to its EU; local search must return a strategy no single flip improves; MAP must return an evidence-consistent assignment maximising the documented objective with the reported score.",
+  "note": "Decisions that alias other atoms, decision ADs with irrelevant heads and MAP's missing consistency check are listed findings (F-C21-4..9).",
+ },
+ "C31": {
+  "level": "exploration",
+  "technique": "property-based testing: generated acyclic programs, the exported Bayesian network multiplied out by an independent evaluator (exact rationals) vs ProbLog's and the reference's marginals",
+  "text": "For every generated acyclic evidence-free program the network built by the bn task (run through bayesnet.main) must define a joint whose marginals on the exported query variables equal the query probabilities.",
+  "note": "Networks are enumerated up to 2^16 assignments; aliased atoms (one node, several names) and unnamed body disjunctions are listed findings.",
+ },
  "C13": {
   "level": "exploration",
   "technique": "property-based testing of generated deterministic Prolog programs against a reference SLD interpreter (ordered answers with duplicates) and a semi-naive least-model evaluator",
